@@ -165,9 +165,13 @@ func TestC15_Exhaustive(t *testing.T) {
 		}
 	}
 	// scalars and missing in array position
-	for si, sc := range []*ast.Node{ast.NumN(5), ast.StrN("s"), ast.BoolN(false), ast.NullN(), ast.N(ast.Obj, ast.StrN("k"), ast.NumN(1)), ast.NameN("zz"), ast.VarN("sum")} {
+	objDoc := val.MustJSON(`{"o0":{},"o2":{"k":1,"j":"1"},"o3":{"a":[1,2],"b":{"c":1},"d":false},"n":7,"s":"str"}`)
+	for si, sc := range []*ast.Node{ast.NumN(5), ast.StrN("s"), ast.BoolN(false), ast.NullN(), ast.N(ast.Obj, ast.StrN("k"), ast.NumN(1)), ast.NameN("zz"), ast.VarN("sum"),
+		// objects with no, two and three members (a non-array counts as ONE member), literal and from the input
+		ast.N(ast.Obj), ast.N(ast.Obj, ast.StrN("k"), ast.NumN(1), ast.StrN("j"), ast.StrN("1")),
+		ast.PathN(ast.VarN("$"), ast.NameN("o0")), ast.PathN(ast.VarN("$"), ast.NameN("o2")), ast.PathN(ast.VarN("$"), ast.NameN("o3")), ast.PathN(ast.VarN("$"), ast.NameN("n")), ast.PathN(ast.VarN("$"), ast.NameN("s"))} {
 		for _, tpl := range templates {
-			m, c := c15Judge(rec, tpl.mk(sc), val.O(nil), fmt.Sprintf("%s|scalar%d", tpl.name, si), true)
+			m, c := c15Judge(rec, tpl.mk(sc), objDoc, fmt.Sprintf("%s|scalar%d", tpl.name, si), true)
 			n++
 			if m != "" && rec.FailNow(c, m) >= 8 {
 				return
